@@ -449,12 +449,14 @@ impl StrExt for str {
         // Simplify pattern to avoid performance issues:
         // - The glob `?**?**?` is equivalent to the glob `???*`
         // - The glob `???*` is equivalent to the regex `.{3,}`
+        //
+        // The wildcards match any character, including line breaks, so `.` needs the `s` flag.
         let question_marks = self.matches('?').count();
 
         if self.contains('*') {
-            format!(".{{{question_marks},}}")
+            format!("(?s:.){{{question_marks},}}")
         } else {
-            format!(".{{{question_marks}}}")
+            format!("(?s:.){{{question_marks}}}")
         }
     }
 }
